@@ -17,7 +17,7 @@ BUILTINS = ('len', 'max', 'min', 'int', 'float', 'isinstance', 'any', 'all', 'st
             'RuntimeError', 'StopIteration', 'ZeroDivisionError')
 SPEC_BUILTINS = ('forall', 'exists', 'implies', 'iff', 'old', 'at', 'ite', 'forall_ref',
                  'exists_ref', 'allocated', 'fresh', 'typeof', 'unchanged', 'card',
-                 'select', 'floor_div', 'truthy', 'is_none', 'dyn_is', 'cast', 'tag_is', 'subset',
+                 'select', 'floor_div', 'truthy', 'is_none', 'caught', 'dyn_is', 'cast', 'tag_is', 'subset',
                  'set_eq', 'set_minus', 'set_union', 'set_add', 'set_del', 'empty_set',
                  'disjoint', 'has_key', 'keys_eq', 'seq_eq', 'let', 'setof', 'dq_lo', 'dq_hi', 'dq_at',
                  'bi8', 'bu8', 'bi16', 'bu16', 'bu24', 'bi32', 'bu32', 'bi64', 'bcat', 'braw', 'bempty', 'blen', 'beq',
@@ -368,6 +368,22 @@ class ExprMixin(object):
       ty = self.expected_type(cx, node)
       if ty is not None and ty.k == 'ref' and self.reg.classes.get(ty.name) is not None and self.reg.classes[ty.name].listlike:
         yield st1, self.make_record(st1, ty, vals, node)
+        continue
+      if ty is not None and ty.k == 'ref' and self.reg.classes.get(ty.name) is not None and self.reg.classes[ty.name].abstracts_list:
+        # a python list the sidecar abstracts to a ghost set (heapq's list): only the empty literal has an abstraction
+        if vals:
+          raise Unsupported('non-empty literal of the abstracted list %s (line %d)' % (ty.name, node.lineno))
+        ci = self.reg.classes[ty.name]
+        r = self.new_ref(st1, ty.name)
+        for fname in ci.abstracts_list:
+          owner, fty = self.field_decl(ty.name, fname)
+          if fty is None or fty.k != 'set':
+            raise Unsupported('abstracts_list field %s.%s must be a set' % (ty.name, fname))
+          sr = self.new_ref(st1)
+          sv = V(fty.with_opt(False), sr)
+          self.set_update(st1, sv, mem=z3.EmptySet(base_sort(fty.args[0])), card=z3.IntVal(0))
+          self.store_field(st1, r, ty.name, fname, sv)
+        yield st1, V(ty.with_opt(False), r)
         continue
       if ty is None:
         if not vals:
